@@ -26,12 +26,13 @@ import (
 // fatal error, a deadlock or a crash is attributed to that scenario.
 
 type scenario13 struct {
-	Name    string
-	Vary    bool // every goroutine's table has another length (the selector text is the same)
-	Shared  bool // one document object read by every goroutine
-	Fresh   bool // selector texts no goroutine has used before (cache insertions)
-	Typed   bool // the tables are typed Go slices ([]map[string]any) of different lengths that begin at one address (prefixes of one list)
-	Refused bool // every other goroutine runs the statement on a table whose rows are arrays: alone that is an error (the join
+	Name     string
+	Vary     bool // every goroutine's table has another length (the selector text is the same)
+	Shared   bool // one document object read by every goroutine
+	Fresh    bool // selector texts no goroutine has used before (cache insertions)
+	SameText bool // round i uses table t_i in every goroutine: the same new statement text everywhere at the same time
+	Typed    bool // the tables are typed Go slices ([]map[string]any) of different lengths that begin at one address (prefixes of one list)
+	Refused  bool // every other goroutine runs the statement on a table whose rows are arrays: alone that is an error (the join
 	// cannot merge such rows) - and next to it the healthy PARALLEL joins have to go on returning their rows
 	Cold bool // nothing is evaluated before the goroutines start, and every round begins right after a
 	// RegisterImmediateFunction (which has returned): whatever the library derives lazily from its registries
@@ -72,6 +73,16 @@ var scenarios13 = []scenario13{
 	{Name: "refused-next-to-healthy", Refused: true, SQL: "SELECT * FROM %s x PARALLEL JOIN u y ON x.a >= y.c"},
 	{Name: "cold-functions", Cold: true, SQL: "SELECT CONCAT(s, 'x') AS v, IF(a > 3, 'hi', 'lo') AS w FROM %s"},
 	{Name: "cold-functions-shared", Cold: true, Shared: true, SQL: "SELECT TO_UPPER(s) AS v, ASYNC.slow(a) AS w FROM %s WHERE a < 3"},
+	// one statement text in every goroutine at the same time (new texts round after round, so that whatever the library
+	// keeps per text is built while the others are building theirs): USING joins and a WITH in front of a UNION are
+	// rewritten while the query is built
+	{Name: "sametext-using-join", SameText: true, SQL: "SELECT x.a, y.s FROM %[1]s x JOIN %[1]s y USING (a)"},
+	{Name: "sametext-with-union", SameText: true, SQL: "WITH c AS (SELECT a FROM %[1]s) SELECT a FROM c UNION SELECT a FROM c WHERE a > 1"},
+	{Name: "separate-with-union", SQL: "WITH c AS (SELECT a FROM %[1]s) SELECT a FROM c UNION ALL SELECT a FROM c WHERE a > 1"},
+	{Name: "separate-using-join", SQL: "SELECT x.a, y.s FROM %[1]s x LEFT JOIN %[1]s y USING (a)"},
+	// calls that run in goroutines of their own with arguments that register work of their own (subqueries, EXISTS)
+	{Name: "separate-async-subquery-arg", SQL: "SELECT a, ASYNC.slow((SELECT MAX(p) AS m FROM n)) AS v, ASYNC.CONCAT((SELECT p FROM n WHERE p > 2), '!') AS w FROM %s"},
+	{Name: "shared-async-subquery-arg", Shared: true, SQL: "SELECT a, ASYNC.CONCAT((SELECT p FROM n), '!') AS w, SPINASYNC.CONCAT((SELECT p FROM n), '?'), (SELECT p FROM n) AS ps FROM %s"},
 	{Name: "shared-async", Shared: true, SQL: "SELECT a, ASYNC.slow(a) AS v, SPINASYNC.slow(a) FROM %s"},
 }
 
@@ -151,6 +162,9 @@ func RunScenario13(name string, n, iters int) int {
 				if sc.Fresh {
 					table = fmt.Sprintf("t_%d_%d_%s", g, i, strconv.FormatInt(time.Now().UnixNano()%1000, 36))
 				}
+				if sc.SameText {
+					table = fmt.Sprintf("t_%d", i)
+				}
 				var doc map[string]any
 				var want []any
 				if sc.Shared {
@@ -171,7 +185,7 @@ func RunScenario13(name string, n, iters int) int {
 				} else {
 					doc = doc13(table)
 					want = wantShared
-					if sc.Fresh {
+					if sc.Fresh || sc.SameText {
 						want = nil
 					}
 				}
